@@ -605,7 +605,7 @@ class PRandomImpulseSequence(PStochasticPattern):
             self.rng.shuffle(indices)
             self.values[indices[0]], self.values[indices[1]] = self.values[indices[1]], self.values[indices[0]]
         elif op == P_MUTATE:
-            index = random.randrange(len(self.values))
+            index = self.rng.randrange(len(self.values))
             self.values[index] = 1 - self.values[index]
         elif op == P_ROTATE:
             direction_right = self.rng.uniform(0, 1) < 0.5
